@@ -713,12 +713,56 @@ def delegations(repo):
             res.append((f, n, ok))
     return res
 
+WIRING = [('P', 'iterators/sync_iterators/prod_iter.rs'), ('W', 'iterators/sync_iterators/work_iter.rs'), ('C', 'iterators/sync_iterators/cons_iter.rs')]
+IDX = {'prod_index': 'P', 'work_index': 'W', 'cons_index': 'C'}
+SETIDX = {'set_prod_index': 'P', 'set_work_index': 'W', 'set_cons_index': 'C'}
+def wiring(repo):
+    """which published index each iterator follows (`succ_index`) and which one it publishes to (`set_atomic_index`)"""
+    defs = []; problems = []
+    succ = {}; pubs = {}
+    for k, f in WIRING:
+        try:
+            txt = strip_comments(open(os.path.join(repo, 'src', f)).read())
+            item = P(lex(find_fn(txt, 'succ_index'))).fn_item()
+            def idx_of(e):
+                e = e[1] if e[0] == 'paren' else e
+                if e[0] == 'mcall' and e[2] in IDX and not e[3] and (e[1][0] in ('field', 'mcall')) and e[1][2] == 'buffer': return IDX[e[2]]
+                raise TErr('succ_index: not a published index')
+            def walk(stmts):
+                if len(stmts) != 1 or stmts[0][0] not in ('tail', 'return'): raise TErr('succ_index: body is not a single expression')
+                e = stmts[0][1]
+                while e[0] in ('paren', 'unsafe'): e = e[1] if e[0] == 'paren' else e[1][0][1]
+                if e[0] == 'if':
+                    c = e[1]
+                    if c != ('path', ['W']): raise TErr('succ_index: condition other than the const parameter W')
+                    return f'(if hasW then {walk(e[2])} else {walk(e[3])})'
+                return idx_of(e)
+            succ[k] = walk(item[4])
+            item = P(lex(find_fn(txt, 'set_atomic_index'))).fn_item()
+            b = item[4]
+            if len(b) != 1 or b[0][0] not in ('expr', 'tail'): raise TErr('set_atomic_index: body is not a single call')
+            e = b[0][1]
+            if not (e[0] == 'mcall' and e[2] in SETIDX and len(e[3]) == 1 and e[3][0] == ('path', [item[2][0][0]])): raise TErr('set_atomic_index: not a store of the argument to one published index')
+            pubs[k] = SETIDX[e[2]]
+        except (TErr, ValueError, IndexError, KeyError) as ex:
+            problems.append(f'{f}: wiring outside the translatable subset: {ex}')
+    if len(succ) == 3 and len(pubs) == 3:
+        defs.append('(* succ_index / set_atomic_index of ProdIter, WorkIter, ConsIter<W> *)')
+        defs.append('Definition g_succ (k : stage) (hasW : bool) : stage :=\n  match k with P => ' + succ['P'] + ' | W => ' + succ['W'] + ' | C => ' + succ['C'] + ' end.')
+        defs.append('Definition g_pub (k : stage) : stage :=\n  match k with P => ' + pubs['P'] + ' | W => ' + pubs['W'] + ' | C => ' + pubs['C'] + ' end.')
+    else:
+        defs.append('Definition g_succ (k : stage) (hasW : bool) : stage := k.\nDefinition g_pub (k : stage) : stage := P.')
+    return defs, problems
+
 def main(repo, outdir):
     defs, problems = translate(repo)
     lines = ['(* GENERATED by tools/data_translate.py from /repo/src on every run - do not edit *)',
              'From Coq Require Import List Arith NArith Bool String.', 'Import ListNotations.',
              'Require Import MRB.Model.Types MRB.Model.Seq MRB.Model.KernelM MRB.Model.DataM MRB.gen.Kernels.',
              'Open Scope dm_scope.', ''] + defs
+    wd, wp = wiring(repo)
+    defs = defs + wd; problems = problems + wp
+    lines = lines[:6] + defs
     dl = delegations(repo)
     lines.append('(* wrapper methods that must only pass the call on to the wrapped iterator (a delegate! line or an equivalent hand-written body): (file, method, does it?) *)')
     lines.append('Definition pass_through : list (string * string * bool) := [' +
